@@ -794,6 +794,64 @@ func (e *env) attestationReplay() bool {
 	return true
 }
 
+// emptyContractProof: the storage-proof object of a v2 resolution is part of the transaction ID. For a contract
+// that stores no data the verifier constrains neither the leaf nor (below 64 hashes) the proof, and the resolution
+// needs no signed input: anyone relaying the transaction can rewrite both, the transaction stays valid and has the
+// same effects, but another ID. Both forms are offered to the real ValidateBlock and applied.
+func (e *env) emptyContractProof() bool {
+	c := e.c
+	h := c.Height() + 1
+	if h < c.Net.N.HardforkV2.AllowHeight {
+		return false
+	}
+	blk, bs, ids, err := c.BlockWithV2Contracts([]chaingen.V2ContractSpec{{Data: nil, ProofHeight: h + 1, ExpirationHeight: h + 6}})
+	if err != nil || ids[0] == (types.FileContractID{}) || c.Offer(blk, bs, nil) != nil {
+		return false
+	}
+	for i := 0; i < 2; i++ {
+		if eb, ebs, err := c.EmptyBlock(); err != nil || c.Offer(eb, ebs, nil) != nil {
+			return true
+		}
+	}
+	fce, ok := c.S.V2FCEs[ids[0]]
+	cie, ok2 := c.S.CIEs[h+1]
+	if !ok || !ok2 {
+		return true
+	}
+	cs := c.Tip()
+	mk := func(leaf [64]byte, proof []types.Hash256) types.V2Transaction {
+		return types.V2Transaction{FileContractResolutions: []types.V2FileContractResolution{{Parent: fce.Copy(), Resolution: &types.V2StorageProof{ProofIndex: cie.Copy(), Leaf: leaf, Proof: proof}}}}
+	}
+	ta := mk([64]byte{}, nil)
+	tb := mk([64]byte{0xAA}, []types.Hash256{{1}, {2}, {3}})
+	outs := func(t types.V2Transaction) (string, bool) {
+		blk, bs, err := c.BlockWith(nil, []types.V2Transaction{t})
+		if err != nil || consensus.ValidateBlock(cs, blk, bs) != nil {
+			return "", false
+		}
+		_, au := consensus.ApplyBlock(cs, blk, bs, c.AncestorTimestamp(cs.Index.Height))
+		s := ""
+		for _, d := range au.SiacoinElementDiffs() {
+			if d.Created && d.SiacoinElement.ID != blk.ID().MinerOutputID(0) && d.SiacoinElement.ID != blk.ID().FoundationOutputID() {
+				s += fmt.Sprintf("%v:%v:%v;", d.SiacoinElement.ID, d.SiacoinElement.SiacoinOutput.Value, d.SiacoinElement.SiacoinOutput.Address)
+			}
+		}
+		for _, d := range au.V2FileContractElementDiffs() {
+			s += fmt.Sprintf("fc %v resolved=%v;", d.V2FileContractElement.ID, d.Resolution != nil)
+		}
+		return s, true
+	}
+	ea, okA := outs(ta)
+	eb, okB := outs(tb)
+	e.b.Eval(1)
+	e.b.Count("empty_contract_proof_pairs", 1)
+	if okA && okB && ea == eb && ta.ID() != tb.ID() {
+		e.b.Violate("C12/id-changed/v2.FileContractResolutions[].Resolution(storage-proof-of-an-empty-contract).Leaf+Proof/ID",
+			"two v2 transactions resolving the same empty contract by storage proof, one with a zero leaf and no proof, one with an arbitrary leaf and three arbitrary hashes, are both accepted and have identical effects (same resolved contract, same created outputs) but different transaction IDs: the witness of a resolution that needs no signature is rewritable by anyone (third-party malleability)", nil)
+	}
+	return true
+}
+
 func run(b *harness.B) {
 	if b.Batch == 0 {
 		polyglot(b)
@@ -819,7 +877,7 @@ func run(b *harness.B) {
 			e.blockBinding(cs, orig, bs)
 		}
 		c.OnStoreApplied = func(ev chaingen.ApplyEvent) { e.derivedVsCreated(ev) }
-		replayed := false
+		replayed, emptyProof := false, false
 		for done := 0; done < blocks; {
 			done += c.Grow(1+rng.IntN(10), chaingen.Plan{MaxTxns: 6})
 			if c.Height() > 2 && rng.IntN(8) == 0 {
@@ -827,6 +885,9 @@ func run(b *harness.B) {
 			}
 			if !replayed {
 				replayed = e.attestationReplay()
+			}
+			if !emptyProof && replayed {
+				emptyProof = e.emptyContractProof()
 			}
 		}
 		if i == 0 {
